@@ -79,6 +79,10 @@ Theorem C09_source_is_model : forall g f gs tau norm taus,
   src_hom_rate g f gs tau norm = hom_rate g f gs tau norm /\ src_hom_rate_series g f gs taus = hom_rate_series g f gs taus.
 Proof. exact (fun g f gs tau norm taus => conj (src_hom_rate_eq g f gs tau norm) (src_hom_rate_series_eq g f gs taus)). Qed.
 
+Theorem C09_source_wrappers : forall J g taus delta_t,
+  src_setup_hom_rate_series J g taus = setup_hom_rate_series J g taus /\ src_hom_visibility J g delta_t = setup_hom_visibility J g delta_t.
+Proof. exact (fun J g taus dt => conj (src_setup_hom_rate_series_eq J g taus) (src_hom_visibility_eq J g dt)). Qed.
+
 Theorem C09_source_range : forall n g f gs tau,
   square_sym n g -> (forall k, (k < n * n)%nat -> gs k = transpose_arr n f k) -> 0 < jsi_norm ROps (n * n) f ->
   0 <= src_hom_rate g f gs tau None <= 1.
@@ -107,6 +111,7 @@ Print Assumptions C09_setup_is_array_level.
 Print Assumptions C09_setup_exchanged_is_transpose.
 Print Assumptions C09_setup_range.
 Print Assumptions C09_source_is_model.
+Print Assumptions C09_source_wrappers.
 Print Assumptions C09_source_range.
 Print Assumptions C09_exec_twin.
 Print Assumptions C09_exec_twin_normed.
